@@ -659,7 +659,8 @@ def run_recv_sweep(kind, k, seed=1):
 
 def run_life(seed, role, cause, point, blocked_consumer, restart=True, hook=None):
     rng = random.Random(seed)
-    sc = Scenario(role, seed)
+    # (outbound traffic waiting when the connection ends: a small send buffer, so that it takes several batches)
+    sc = Scenario(role, seed, send_buffer=250 if point == "open-outbound" else None)
     n = sc.n
     if hook:
         hook(sc)
